@@ -25,8 +25,15 @@ def grid_array_of(case):
             return np.asarray(full_grid(g["b"], g["o"], g["t"]).get_full_grid_as_array())
     pos = np.array(case["grid"]["positions"], dtype=float)
     q = np.array(case["grid"]["quats"], dtype=float)
+    form = case["grid"].get("dtype", "float64")
+    if form == "int":
+        # whole-number positions and integer quaternions (the rotation library normalises them), passed as an integer array
+        return np.hstack([np.round(pos), np.round(q)]).astype(int)
     q = q / np.linalg.norm(q, axis=1)[:, None]
-    return np.hstack([pos, q])
+    arr = np.hstack([pos, q])
+    if form == "float32":
+        return arr.astype(np.float32)
+    return arr
 
 
 def judge(case):
@@ -206,7 +213,12 @@ def _shard(arg):
                 if draw(st.booleans()):
                     q = [-x for x in q]  # -q is the same rotation
             quats.append([float(x) for x in q])
-        return {"kind": "array", "positions": pos, "quats": quats}
+        form = draw(st.sampled_from(["float64", "float64", "float64", "int", "float32"]))
+        if form == "int":
+            pos = [[float(round(v)) for v in p] for p in pos]
+            axis_aligned = [[0, 0, 0, 1], [0, 0, 0, -1], [1, 0, 0, 0], [0, 1, 0, 0], [0, 0, 1, 0], [1, 1, 0, 0], [1, 0, 0, 1], [1, 1, 1, 1], [0, -1, 0, 1]]
+            quats = [[float(x) for x in axis_aligned[draw(st.integers(0, len(axis_aligned) - 1))]] for _ in pos]
+        return {"kind": "array", "positions": pos, "quats": quats, "dtype": form}
 
     def builder(res, fail):
         @given(molecule(), molecule(), grids(), st.lists(st.integers(0, 100), max_size=6))
